@@ -649,7 +649,7 @@ def replay(f):
     elif isinstance(inp, dict) and "line" in inp:
         env = _Env.get()
         real = real_stream(env, inp["samples"], [tuple(x) for x in inp["specs"]], inp["mode"], inp["history"])
-        m = core.Driver().run([inp["line"]])[0]
+        m = core.Driver("C10").run([inp["line"]])[0]
         if real != m:
             out.fail(f["family"], f["what"], inp, observed=real, expected=m)
     return out
@@ -685,9 +685,27 @@ def _is_view(n):
             and isinstance(n.func.value, ast.Name) and n.func.value.id in ("orb", "orb2"))
 
 
+_LOCALS = {}   # local variables of the function being translated -> Lean term
+
+
 def _expr(n):
     """Python expression over the quantities of one listener -> Lean term (Int / Bool / String)"""
     import ast
+    if isinstance(n, ast.Name) and n.id in _LOCALS:
+        return _LOCALS[n.id]
+    src = ast.unparse(n)
+    if src == "self._backward(orb)":
+        return "bw"
+    if src == "self.prev is not None":
+        return "true"      # the model evaluates guards only when `prev` is set
+    if src == "np.pi":
+        return "piUnit"
+    if src == "self._diff(orb)":
+        return "fe"
+    if src == "self._diff(self.prev)":
+        return "fp"
+    if isinstance(n, ast.Call) and isinstance(n.func, ast.Name) and n.func.id == "abs" and len(n.args) == 1:
+        return f"(Int.natAbs ({_expr(n.args[0])}) : Int)"
     if isinstance(n, ast.Attribute) and n.attr in SPHERICAL and _is_view(n.value):
         return SPHERICAL[n.attr]
     if isinstance(n, ast.Attribute) and isinstance(n.value, ast.Name) and n.value.id == "self" and n.attr in ("elev", "sight"):
@@ -700,8 +718,6 @@ def _expr(n):
             return "fp"
     if isinstance(n, ast.Call) and isinstance(n.func, ast.Attribute) and n.func.attr == "get_mask" and ast.unparse(n) == "self.station.get_mask(orb.theta)":
         return "mask"
-    if isinstance(n, ast.Call) and isinstance(n.func, ast.Name) and n.func.id == "abs" and ast.unparse(n.args[0]) == "self._diff(orb)":
-        return "(Int.natAbs fe : Int)"
     if isinstance(n, ast.Constant) and isinstance(n.value, bool):
         return "true" if n.value else "false"
     if isinstance(n, ast.Constant) and isinstance(n.value, int):
@@ -716,6 +732,8 @@ def _expr(n):
             return f"decide ({_expr(n.left)} {op} {_expr(n.comparators[0])})"
         if isinstance(n.ops[0], ast.Eq) and ast.unparse(n) == "self.type == self.UMBRA":
             return "umbra"
+        if isinstance(n.ops[0], ast.NotEq):     # used between two booleans only
+            return f"({_expr(n.left)} != {_expr(n.comparators[0])})"
     if isinstance(n, ast.BoolOp):
         op = " || " if isinstance(n.op, ast.Or) else " && "
         return "(" + op.join(_expr(v) for v in n.values) + ")"
@@ -738,6 +756,12 @@ def _body(stmts, env):
     s, rest = stmts[0], stmts[1:]
     if isinstance(s, ast.Assign) and len(s.targets) == 1 and isinstance(s.targets[0], ast.Name) and s.targets[0].id in ("orb", "orb2") and _is_view(s.value):
         return _body(rest, env)   # a change of frame / form of the same state
+    if isinstance(s, ast.Assign) and len(s.targets) == 1 and isinstance(s.targets[0], ast.Name) and not isinstance(s.value, ast.Constant):
+        _LOCALS[s.targets[0].id] = _expr(s.value)   # a local boolean / number
+        try:
+            return _body(rest, env)
+        finally:
+            _LOCALS.pop(s.targets[0].id, None)
     if isinstance(s, ast.If):
         # branches that assign a local string then fall through
         def branch(b):
@@ -811,7 +835,8 @@ def translate_listeners(src):
            "Watched quantity (`__call__`), guard (the part of an overridden `check` before `super().check`) and label",
            "(`info`) of every listener class, translated from the Python AST.  Quantities: `phi phidot rdot` spherical",
            "components of the state in the listener's frame, `mask = station.get_mask(theta)`, `fe = self(orb)`,",
-           "`fp = self(self.prev)`; integer literals are multiplied by `unit` (the fixed-point scale of the quantity). -/",
+           "`fp = self(self.prev)`, `bw = self._backward(orb)`; integer literals are multiplied by `unit` (the fixed-point scale",
+           "of the quantity), `np.pi` is `piUnit` (the smallest integer above pi * unit). -/",
            "namespace BeyondVerif.Generated.ListenSrc", "set_option linter.unusedVariables false", ""]
     for cls, pre, has_f in CLASSES:
         evname = ast.unparse(class_attr(cls, "event"))
@@ -828,15 +853,15 @@ def translate_listeners(src):
         owner_is_base = chk is method("Listener", "check")
         g = "true" if owner_is_base else _body(chk.body, env)
         out.append(f"/-- `{cls}.check`: condition under which `Listener.check` is consulted -/")
-        out.append(f"def {pre}Guard (unit : Int) (sight : Bool) (phi phidot rdot fe : Int) : Bool := {g}")
+        out.append(f"def {pre}Guard (unit piUnit : Int) (sight : Bool) (phi phidot rdot fe fp : Int) : Bool := {g}")
         lab = _body(method(cls, "info").body, env)
         out.append(f"/-- `{cls}.info(orb).info` -/")
-        out.append(f"def {pre}Label (unit : Int) (umbra : Bool) (phi phidot rdot fe fp : Int) : String := {lab}")
+        out.append(f"def {pre}Label (unit : Int) (umbra bw : Bool) (phi phidot rdot fe fp : Int) : String := {lab}")
         out.append("")
     # AnomalyListener: guard from the AST, label prefixes from the ANOMALIES table (evaluated on the live class)
     env = {"__events__": {}}
     out.append("/-- `AnomalyListener.check` -/")
-    out.append(f"def anomalyGuard (unit : Int) (sight : Bool) (phi phidot rdot fe : Int) : Bool := {_body(method('AnomalyListener', 'check').body, env)}")
+    out.append(f"def anomalyGuard (unit piUnit : Int) (sight : Bool) (phi phidot rdot fe fp : Int) : Bool := {_body(method('AnomalyListener', 'check').body, env)}")
     return out
 
 
@@ -925,8 +950,6 @@ class _Env:
             def _anom(self):
                 x = evalpoly(self.ch[0], self.t)
                 x = max(-3 * ANOM_UNIT, min(3 * ANOM_UNIT, x))
-                if abs(x) == 2 * ANOM_UNIT:
-                    env.ambiguous = True     # |diff| < 2 is decided by float rounding of (x + π) % 2π − π
                 return x / ANOM_UNIT
         for a in ("ν", "M", "E", "u"):
             setattr(View, a, property(View._anom))
@@ -1166,7 +1189,7 @@ def correspondence(ctx):
         P = gen_poly(rng, min(b, b + d), max(b, b + d), [b, b + d])
         bis.append((b, b + d, P))
         lines.append(f"c10b {b} {b + d} " + ",".join(map(str, P)))
-    model = core.Driver().run(lines)
+    model = core.Driver("C10").run(lines)
     for (ts, skind, specs, mode, history), m in zip(cases, model[:len(cases)]):
         env.ambiguous = False
         try:
